@@ -476,6 +476,51 @@ def total_goal(cid, parts, cs, y, site):
 
 # ----------------------------------------------------------------------------- run one scenario
 
+def second_samples(cfg, rnd, s):
+    """a DIFFERENT set of samples for the same ConfigLoader (its Model objects are lru_cached and therefore shared by
+    every FCN built from it): other events, other sizes, other data / MC weights, non-constant bg_value / eff_value"""
+    import tensorflow as tf
+    from tf_pwa.phasespace import PhaseSpaceGenerator
+    R = s.R
+    cfit = s.model in CFIT_LIKE
+
+    def mk(n, seed):
+        tf.random.set_seed(seed)
+        p = PhaseSpaceGenerator(MASSES[0], MASSES[1]).generate(n)
+        return cfg.data.cal_angle([np.array(i) for i in p])
+
+    data2, phsp2, bg2, raws2, nmax = [], [], [], [], 0
+    for gi in range(s.ngroup):
+        nd = R * rnd.randrange(3, 7) if R > 1 else rnd.randrange(8, 15)
+        nb = R * rnd.randrange(1, 3) if R > 1 else rnd.randrange(3, 6)
+        nm = rnd.randrange(10, 19)
+        seed = rnd.randrange(1, 10 ** 6)
+        d, m = mk(nd, seed), mk(nm, seed + 1)
+        ev = gen_weights(rnd, nd // R, "mixed")
+        w = [round(e * (rnd.uniform(0.3, 1.0) if R > 1 else 1.0), 3) for e in ev for _ in range(R)]
+        v = [round(rnd.uniform(0.3, 2.5), 3) for _ in range(nm)]
+        d["weight"] = np.array(w, dtype=np.float64); m["weight"] = np.array(v, dtype=np.float64)
+        if cfit:
+            d["bg_value"] = np.array([round(rnd.uniform(0.2, 3.0), 3) for _ in range(nd)])
+            d["eff_value"] = np.array([round(rnd.uniform(0.5, 1.0), 3) for _ in range(nd)])
+            m["bg_value"] = np.array([round(rnd.uniform(0.2, 3.0) ** 2, 3) for _ in range(nm)])
+            m["eff_value"] = np.array([round(rnd.uniform(0.5, 1.0), 3) for _ in range(nm)])
+        data2.append(d); phsp2.append(m)
+        if s.bgkind == "none":
+            bg2.append(None); raws2.append((w, None, 0, v)); nb = 0
+        else:
+            b = mk(nb, seed + 2)
+            if s.bgkind == "noweight":
+                raws2.append((w, [-s.wb] * nb, nb, v))
+            else:
+                bw = [-round(rnd.uniform(0.05, 0.7), 3) for _ in range(nb)]
+                b["weight"] = np.array(bw, dtype=np.float64)
+                raws2.append((w, bw, nb, v))
+            bg2.append(b)
+        nmax = max(nmax, nd + nb)
+    return (data2, phsp2, None if s.bgkind == "none" else bg2, None), raws2, nmax
+
+
 def run_scenario(ctx, rnd, s, npoints, all_batches):
     from tf_pwa.config_loader import ConfigLoader
     cases, records = [], []
@@ -508,13 +553,37 @@ def run_scenario(ctx, rnd, s, npoints, all_batches):
         scale = math.sqrt(1e-6 / f0)
         cfg.set_params({k: float(v) * scale for k, v in cfg.get_params().items() if k.endswith("_total_0r")})
     keep = []
-    for pi in range(npoints):
+    # phases: regular parameter points; then (when Gaussian constraints are configured) a likelihood-scan point with one
+    # constrained parameter FIXED away from its mean - the constraint term must stay in the NLL; then a SECOND, different
+    # sample set evaluated through the same ConfigLoader (shared, lru_cached Model objects must not remember the first one)
+    phases = [("point", pi) for pi in range(npoints)]
+    if s.gc and not s.clip:
+        phases.append(("fixed", npoints))
+    if not s.clip:
+        phases.append(("second", npoints + 1))
+    fixed = []
+    for kind, pi in phases:
+        if kind == "fixed":
+            cand = [k for k in s.gc if k in cfg.vm.trainable_vars and len(cfg.vm.trainable_vars) > 1]
+            cand.sort(key=lambda k: 0 if k.endswith("_mass") and s.model != "cached_int" else 1)
+            if not cand:
+                continue
+            mu, sg = s.gc[cand[0]]
+            cfg.vm.set_fix(cand[0], value=float(mu) + rnd.choice([-1, 1]) * rnd.uniform(0.5, 2.0) * float(sg))
+            fixed.append(cand[0])
+            ctx.count("phase:constraint_on_fixed_parameter")
+        if kind == "second":
+            all_data, raws, N2 = second_samples(cfg, rnd, s)
+            b0 = rnd.choice([3, N2 - 1, N2, N2 + 5] if s.R == 1 else [s.R, 2 * s.R, N2, N2 + 2 * s.R])
+            ctx.count("phase:second_sample_same_ConfigLoader")
         x = random_point(rnd, cfg.vm, scale)
         if s.model in ("cached_int", "cached_amp"):
             x = {k: v for k, v in x.items() if not (k.endswith("_mass") or k.endswith("_width"))}
         others = [b for b in batches if b != b0]
         if not all_batches:
             others = [rnd.choice(others)]
+        if kind != "point":
+            others = []
         for bi, batch in enumerate([b0] + others):
             fcn = cfg.get_fcn(all_data=all_data, batch=batch)
             keep.append(fcn)  # the cached models key their caches by id(batch list): keep every FCN alive so ids are never reused
@@ -541,7 +610,7 @@ def run_scenario(ctx, rnd, s, npoints, all_batches):
                                {"layer": "gradval", "site": "nll_grad_batch (value, batch independence)", "reference_batch": b0,
                                 "value": p.gradval, "reference_value": ref_grad[gi]})]
                 for c in gl:
-                    c[3].update({"model": s.model, "batch": batch, "group": gi, "scenario": s.sid})
+                    c[3].update({"model": s.model, "batch": batch, "group": gi, "scenario": s.sid, "point": pi, "phase": kind})
                 cases += gl
                 ctx.evaluations += 2
                 dv = doc_value(s.model, p, fb)
@@ -558,8 +627,10 @@ def run_scenario(ctx, rnd, s, npoints, all_batches):
                 records.append({**extra, "scenario": s.sid, "model": s.model, "group": gi, "batch": batch, "params": x,
                                 "weights": p.ws, "bg_weights": p.bgw, "mc_weights": p.v, "density_data": p.f, "density_mc": p.g,
                                 "nll_call": p.call, "nll_gradval": p.gradval, "documented": float(dv), "bg_frac": fb,
-                                "clip": s.clip})
-            ctx.count("model:" + s.model); ctx.count("batch:" + (("1" if batch == 1 else "3" if batch == 3 else "N-1" if batch == N - 1 else "N" if batch == N else "N+5") if s.R == 1 else
+                                "clip": s.clip, "point": pi, "phase": kind})
+            ctx.count("model:" + s.model)
+            if kind != "second":
+                ctx.count("batch:" + (("1" if batch == 1 else "3" if batch == 3 else "N-1" if batch == N - 1 else "N" if batch == N else "N+5") if s.R == 1 else
                                   ("R" if batch == s.R else "2R" if batch == 2 * s.R else "N-R" if batch == N - s.R else "N" if batch == N else "N+2R")))
             ctx.distinct.add((s.sid, pi, batch))
             if bi > 0:
@@ -571,10 +642,13 @@ def run_scenario(ctx, rnd, s, npoints, all_batches):
             ctx.evaluations += 2
             site = "CombineFCN" if len(fcns) > 1 else "FCN"
             cid = "b%d_s%d_p%d" % (batch, s.sid, pi)
-            for c in (total_goal(cid + "_TC", [p.call for p in parts], cs, tot_call, site + ".__call__"),
-                      total_goal(cid + "_TG", [p.gradval for p in parts], cs, tot_grad, site + ".nll_grad")):
-                c[3].update({"model": s.model, "batch": batch, "scenario": s.sid, "parts": [p.call for p in parts],
-                             "constraints": cs, "impl": tot_call})
+            gt = sum((t - mu) ** 2 / sg ** 2 / 2 for t, mu, sg in cs)
+            for c, pv, yv in ((total_goal(cid + "_TC", [p.call for p in parts], cs, tot_call, site + ".__call__"), [p.call for p in parts], tot_call),
+                              (total_goal(cid + "_TG", [p.gradval for p in parts], cs, tot_grad, site + ".nll_grad"), [p.gradval for p in parts], tot_grad)):
+                c[3].update({"model": s.model, "batch": batch, "scenario": s.sid, "point": pi, "phase": kind, "parts": pv,
+                             "constraints(theta,mean,sigma)": dict(zip(s.gc.keys(), cs)), "fixed_parameters": list(fixed),
+                             "reported": yv, "expected(sum of parts + Gaussian terms of ALL configured constraints)": sum(pv) + gt,
+                             "params": x, "config": s.cfg if kind != "second" else "in-memory second sample set (see records)"})
                 cases.append(c)
     ctx.count("resolution_size:%d" % s.R)
     ctx.count("groups:%d" % s.ngroup); ctx.count("data_weights:" + s.wkind); ctx.count("bg:" + s.bgkind)
@@ -627,7 +701,7 @@ def search(ctx, fails):
     # batch independence / path agreement on the implementation itself
     by = {}
     for r in recs:
-        by.setdefault((r["scenario"], r["group"], str(sorted(r["params"].items()))), []).append(r)
+        by.setdefault((r["scenario"], r["group"], r.get("point"), str(sorted(r["params"].items()))), []).append(r)
     for k, rs in by.items():
         ref = rs[0]["nll_gradval"]
         for r in rs[1:]:
@@ -738,15 +812,18 @@ def run(ctx):
     res = common.coq_cases(ctx, "nll", HEADER, [c[:3] for c in cases], per_file=max(3, len(cases) // 64 + 1), case_timeout=120)
     rec_by = {}
     for r in records:
-        rec_by[(r["scenario"], r["group"], r["batch"])] = r
+        rec_by[(r["scenario"], r["group"], r["batch"], r.get("point"))] = r
     for cid, stmt, tac, meta in cases:
         if res[cid] != "OK":
-            r = rec_by.get((meta.get("scenario"), meta.get("group", 0), meta.get("batch")))
+            r = rec_by.get((meta.get("scenario"), meta.get("group", 0), meta.get("batch"), meta.get("point")))
             fi = None
             if r is not None and meta["layer"] in ("call", "gradval") and not r["clip"]:
                 key = "nll_call" if meta["layer"] == "call" else "nll_gradval"
                 if abs(r[key] - r["documented"]) > 1e-8 * (abs(r["documented"]) + 1):
                     fi = dict(r, check="documented formula (independent NumPy) vs implementation", observable=key)
+            if fi is None and meta["layer"] == "total":
+                fi = dict({k: v for k, v in meta.items() if k not in ("layer", "site")},
+                          check="%s = sum of the parts + Gaussian-constraint term of every configured constraint (free or fixed)" % meta["site"])
             site, fp = meta["site"], "%s:%s" % (meta.get("model"), meta["layer"])
             if r is not None and meta.get("model") == "cfit_cached" and meta["layer"] == "gradval":
                 # known shape of defect F11: efficiency missing in the signal normalisation integral
